@@ -838,7 +838,9 @@ func (f *frame) havocChanged(st *State, changed []string) {
 		}
 		if name == "*class0" {
 			e.preserving = !f.npBump
+			e.keepOwn = true // own map heaps changed by the body are listed by name
 			e.havocClass(st, 0)
+			e.keepOwn = false
 			e.preserving = false
 			if !f.npBump {
 				// every class-0 havoc in the body preserved the objects owned by the root package
@@ -1158,7 +1160,7 @@ func (f *frame) frameCandidates(changed []string) []string {
 	e := f.e
 	var out []string
 	for _, name := range changed {
-		if strings.HasPrefix(name, "*") || name == "W" || name == "EXCL" || strings.HasPrefix(name, "VIS_") || strings.HasPrefix(name, "LAST") || strings.HasPrefix(name, "CALLED_") || strings.HasPrefix(name, "COUNT_") {
+		if strings.HasPrefix(name, "*") || name == "W" || name == "EXCL" || strings.HasPrefix(name, "VIS_") || strings.HasPrefix(name, "LAST") || strings.HasPrefix(name, "CALLED_") || strings.HasPrefix(name, "COUNT_") || strings.HasPrefix(name, "ARGS_") {
 			continue
 		}
 		if !strings.HasPrefix(e.heapSort[name], "(Array Int ") || changedClass(changed, e.class(name)) {
